@@ -133,6 +133,8 @@ impl<T: Clone + Copy + Zero + Mul<Output = T> + Add<Output = T>> Polynomial<T> {
     #[inline]
     pub fn derivative_at(&self, x: T, n: usize) -> T {
         let p = self.derivative_n( n );
+        // the (degree + 1)-th derivative is the empty (zero) polynomial: its value is zero
+        if p.coeffs.is_empty() { return T::zero(); }
         p.eval( x )
     }
 }
